@@ -61,7 +61,10 @@ Record ss_conf := {
   cf_max_indiv_free : Z; cf_max_total_free : Z;
   cf_owner : Z;
   cf_sc : Z;               (* id used for the contract's own wallet in st_bals *)
-  cf_electra : option Z; cf_demeter : option Z   (* activation rounds *)
+  cf_electra : option Z; cf_demeter : option Z;  (* activation rounds *)
+  cf_ent : bool            (* enterprise world: electra is active from the first round, every blobber is registered
+                              with is_enterprise and every allocation request carries is_enterprise and valid
+                              blobber auth tickets (see ss_apply_w) *)
 }.
 
 Definition ss_active (f : option Z) (round : Z) : bool :=
@@ -1247,3 +1250,154 @@ Fixpoint ss_run (c : ss_conf) (s : ss_state) (ts : list (Z * Z * ss_op)) : ss_st
   | [] => (s, [])
   | t :: tl => let '(s1, ok) := ss_step c s t in let '(s2, oks) := ss_run c s1 tl in (s2, ok :: oks)
   end.
+
+(* ---------- enterprise allocations (after the electra hard fork) ---------- *)
+
+(* An enterprise allocation has no challenge pool node: the model keeps [al_cp = Some 0] for it (the
+   correspondence prints "absent" for allocations with [al_ent]); commit_connection is refused for
+   it, so it never stores data and is never challenged.  Blobbers are paid pro rata of the used
+   part of the period when the allocation is extended or closed. *)
+
+Definition al_with_ent (a : ss_alloc) (e : bool) : ss_alloc :=
+  {| al_id := al_id a; al_owner := al_owner a; al_start := al_start a; al_exp := al_exp a; al_size := al_size a;
+     al_data := al_data a; al_parity := al_parity a; al_wpool := al_wpool a; al_mtc := al_mtc a; al_mb := al_mb a; al_mtv := al_mtv a;
+     al_tpe := al_tpe a; al_ent := e; al_used := al_used a; al_tot := al_tot a; al_open := al_open a;
+     al_succ := al_succ a; al_fail := al_fail a; al_rr := al_rr a; al_wr := al_wr a; al_cp := al_cp a; al_bas := al_bas a;
+     al_ocs := al_ocs a; al_chnode := al_chnode a |}.
+
+(* usedDurationInTimeunit for an allocation that has not expired: 1 - unused / time_unit *)
+Definition ss_used_dur (c : ss_conf) (a : ss_alloc) (now : Z) : f64 :=
+  f64_sub (f64_of_Z 1) (f64_div (f64_of_Z ((al_exp a - now) * 1000000000)) (f64_of_Z (cf_tu_ns c))).
+
+(* payCostForDtuForEnterpriseAllocation: the reward is distributed BEFORE the amount is capped by
+   the write pool; returns stake pools, write pool, total cost *)
+Fixpoint ss_ent_pay (c : ss_conf) (a : ss_alloc) (now : Z) (bas : list ss_balloc) (bls : list ss_blobber) (w cost : Z)
+  : option (list ss_blobber * Z * Z) :=
+  match bas with
+  | [] => Some (bls, w, cost)
+  | d :: tl =>
+      c0 <- f64_mult_coin (ba_wp d) (ss_size_gb (ba_size d)) ;;
+      c1 <- (if now <? al_exp a then f64_mult_coin c0 (ss_used_dur c a now) else Some c0) ;;
+      b <- ss_find_blobber (ba_blobber d) bls ;;
+      b1 <- ss_distribute b c1 ;;
+      let c2 := Z.min c1 w in
+      cost' <- ss_add_coin cost c2 ;;
+      ss_ent_pay c a now tl (ss_set_blobber b1 bls) (w - c2) cost'
+  end.
+
+(* cancelAllocationRequest / finalizeAllocationInternal: every stake pool gives its offer back *)
+Fixpoint ss_ent_offers (bas : list ss_balloc) (bls : list ss_blobber) : option (list ss_blobber) :=
+  match bas with
+  | [] => Some bls
+  | d :: tl => b <- ss_find_blobber (ba_blobber d) bls ;; b0 <- ss_reduce_offer b (ss_offer d) ;; ss_ent_offers tl (ss_set_blobber b0 bls)
+  end.
+
+(* finishAllocation, enterprise branch: Allocated is released (SavedData is not touched) *)
+Fixpoint ss_ent_release (bas : list ss_balloc) (bls : list ss_blobber) : option (list ss_blobber) :=
+  match bas with
+  | [] => Some bls
+  | d :: tl => b <- ss_find_blobber (ba_blobber d) bls ;;
+               ss_ent_release tl (ss_set_blobber (bl_with_sizes b (bl_allocd b - ba_size d) (bl_saved b)) bls)
+  end.
+
+Definition ss_close_ent (c : ss_conf) (s : ss_state) (now : Z) (a : ss_alloc) : option ss_state :=
+  bls0 <- ss_ent_offers (al_bas a) (st_blobbers s) ;;
+  '(bls1, w1, _) <- ss_ent_pay c a now (al_bas a) bls0 (al_wpool a) 0 ;;
+  bls2 <- ss_ent_release (al_bas a) bls1 ;;
+  s2 <- ss_transfer (st_with_blobbers s bls2) (cf_sc c) (al_owner a) w1 ;;
+  Some (st_with_allocs s2 (ss_del_alloc (al_id a) (st_allocs s2))).
+
+Definition ss_finalize_ent (c : ss_conf) (s : ss_state) (now sender alloc : Z) : option ss_state :=
+  a <- ss_find_alloc alloc (st_allocs s) ;;
+  _ <- ss_guard ((al_owner a =? sender) || match ss_find_ba sender (al_bas a) with Some _ => true | None => false end) ;;
+  _ <- ss_guard (al_exp a <=? now) ;;
+  ss_close_ent c s now a.
+
+Definition ss_cancel_ent (c : ss_conf) (s : ss_state) (now sender alloc : Z) : option ss_state :=
+  a <- ss_find_alloc alloc (st_allocs s) ;;
+  _ <- ss_guard (al_owner a =? sender) ;;
+  _ <- ss_guard (now <=? al_exp a) ;;
+  ss_close_ent c s now a.
+
+(* newAllocationRequestInternal with is_enterprise: the same assignment, no challenge pool *)
+Definition ss_new_alloc_ent (c : ss_conf) (s : ss_state) (now id owner payer value txn_value data parity size : Z)
+           (blobbers : list Z) (rr wr : Z * Z) (tpe : bool) : option ss_state :=
+  s1 <- ss_new_alloc c s now id owner payer value txn_value data parity size blobbers rr wr tpe ;;
+  a <- ss_find_alloc id (st_allocs s1) ;;
+  Some (st_with_allocs s1 (ss_set_alloc (al_with_ent a true) (st_allocs s1))).
+
+(* extendAllocation for an enterprise allocation: the used part of the period is settled first,
+   then sizes / terms / offers change as usual; there is no challenge pool to adjust *)
+Definition ss_extend_ent (c : ss_conf) (s : ss_state) (now : Z) (a : ss_alloc) (req_size : Z) : option (ss_state * ss_alloc) :=
+  '(bls1, w1, _) <- ss_ent_pay c a now (al_bas a) (st_blobbers s) (al_wpool a) 0 ;;
+  let diff := ss_bsize req_size (al_data a) in
+  '(bas, bls) <- ss_extend_terms c req_size diff (al_bas a) bls1 ;;
+  let a0 := al_with_pools a w1 (al_mtc a) (al_mb a) (al_mtv a) (al_cp a) bas in
+  let a1 := al_with_head a0 (al_owner a) (now + ss_tu_sec c) (al_size a + req_size) (al_parity a) (al_tpe a) in
+  Some (st_with_blobbers s bls, a1).
+
+(* updateAllocationRequestInternal for an enterprise allocation; adding or replacing a blobber needs
+   the new blobber's auth ticket, which the transactions of the engine never carry: refused *)
+Definition ss_update_ent (c : ss_conf) (s : ss_state) (now round sender alloc value size : Z) (extend0 set_tpe : bool)
+           (add remove : option Z) (new_owner : option (Z * bool)) : option ss_state :=
+  let extend := extend0 || (0 <? size) in
+  a <- ss_find_alloc alloc (st_allocs s) ;;
+  let req_owner := match new_owner with Some (o, _) => o | None => sender end in
+  _ <- ss_guard ((sender =? al_owner a) || (al_tpe a && extend)) ;;
+  let nothing := (size =? 0) && negb extend && (match add with None => true | Some _ => false end) &&
+                 (negb set_tpe || al_tpe a) && (al_owner a =? req_owner) in
+  _ <- ss_guard (negb nothing) ;;
+  _ <- ss_guard (0 <=? size) ;;
+  _ <- ss_guard (match al_bas a with [] => false | _ => true end) ;;
+  _ <- ss_guard (match add, remove with None, None => true | _, _ => false end) ;;
+  _ <- ss_guard (now <=? al_exp a) ;;
+  '(s1, a1) <- (if ss_active (cf_demeter c) round && (0 <? value) then
+                  s' <- ss_lock_from c s sender value ;;
+                  w <- ss_add_coin (al_wpool a) value ;;
+                  _ <- ss_guard (ss_int64_ok value) ;;
+                  Some (s', al_with_pools a w (al_mtc a) (al_mb a) (al_mtv a) (al_cp a) (al_bas a))
+                else Some (s, a)) ;;
+  _ <- ss_find_blobbers (map ba_blobber (al_bas a1)) (st_blobbers s1) ;;
+  '(s2, a2) <-
+    (if negb (sender =? al_owner a1) then ss_extend_ent c s1 now a1 size
+     else
+       '(s'', a'') <- (if extend then ss_extend_ent c s1 now a1 size else Some (s1, a1)) ;;
+       let a3 := al_with_head a'' (al_owner a'') (al_exp a'') (al_size a'') (al_parity a'') (al_tpe a'' || set_tpe) in
+       match new_owner with
+       | Some (o, with_pk) =>
+           if o =? al_owner a3 then Some (s'', a3)
+           else _ <- ss_guard with_pk ;; Some (s'', al_with_head a3 o (al_exp a3) (al_size a3) (al_parity a3) (al_tpe a3))
+       | None => Some (s'', a3)
+       end) ;;
+  (* requiredTokensForUpdateAllocation: always the full cost, no challenge pool *)
+  cost <- ss_cost (al_bas a2) ;;
+  let total := al_wpool a2 in
+  let need := if total <? cost then cost - total else 0 in
+  _ <- ss_guard (if ss_active (cf_electra c) round then need =? 0 else need <=? value) ;;
+  Some (st_with_allocs s2 (ss_set_alloc a2 (st_allocs s2))).
+
+(* one transaction in the world the configuration describes *)
+Definition ss_apply_w (c : ss_conf) (s : ss_state) (now round : Z) (o : ss_op) : option ss_state :=
+  if negb (cf_ent c) then ss_apply c s now round o
+  else
+    match o with
+    | OpNewAlloc id sender owner value data parity size bl a b x y tpe =>
+        ss_new_alloc_ent c s now id owner sender value value data parity size bl (a, b) (x, y) tpe
+    | OpCommit _ _ _ _ _ _ _ _ => None               (* commit connection not allowed for enterprise allocation *)
+    | OpUpdate sender alloc value size ext tpe add rem own => ss_update_ent c s now round sender alloc value size ext tpe add rem own
+    | OpFinalize sender alloc => ss_finalize_ent c s now sender alloc
+    | OpCancel sender alloc => ss_cancel_ent c s now sender alloc
+    | OpFreeAlloc _ _ _ _ _ _ _ _ => None            (* the free request is not enterprise, every blobber is *)
+    | _ => ss_apply c s now round o
+    end.
+
+Definition ss_step_w (c : ss_conf) (s : ss_state) (t : Z * Z * ss_op) : ss_state * bool :=
+  let '(now, round, o) := t in
+  match ss_apply_w c s now round o with Some s' => (s', true) | None => (s, false) end.
+
+Fixpoint ss_run_w (c : ss_conf) (s : ss_state) (ts : list (Z * Z * ss_op)) : ss_state * list bool :=
+  match ts with
+  | [] => (s, [])
+  | t :: tl => let '(s1, ok) := ss_step_w c s t in let '(s2, oks) := ss_run_w c s1 tl in (s2, ok :: oks)
+  end.
+
